@@ -128,6 +128,16 @@ func condAtoms(c ssa.Value) (ssa.Value, absval) {
 			return v, a.flip()
 		}
 	case *ssa.BinOp:
+		// len(x) > 0  /  0 < len(x)
+		if x.Op == token.GTR || x.Op == token.LSS {
+			l, k := x.X, x.Y
+			if x.Op == token.LSS {
+				l, k = x.Y, x.X
+			}
+			if kc, ok := k.(*ssa.Const); ok && constAbs(kc) == zero && isLenCall(l) {
+				return l, nonzero
+			}
+		}
 		if x.Op == token.EQL || x.Op == token.NEQ {
 			var other ssa.Value
 			var k *ssa.Const
@@ -537,6 +547,17 @@ func (fi *fnInfo) abs(v ssa.Value, env *penv, at *ssa.BasicBlock, edge int, dept
 		if neverNil[CalleeName(x)] {
 			return nonzero
 		}
+		if b, ok := x.Call.Value.(*ssa.Builtin); ok {
+			switch b.Name() {
+			case "len":
+				// emptiness of a slice that is only ever nil or grown by append
+				return fi.lenAbs(x.Call.Args[0], env, at, edge, depth+1)
+			case "append":
+				if appendsElements(x) {
+					return nonzero // neither nil nor empty
+				}
+			}
+		}
 		// fmt.Sprintf with literal text in its format never yields ""
 		if CalleeName(x) == "fmt.Sprintf" && len(x.Call.Args) > 0 {
 			if f, ok := ConstString(x.Call.Args[0]); ok && hasLiteralText(f) {
@@ -599,6 +620,86 @@ func (fi *fnInfo) abs(v ssa.Value, env *penv, at *ssa.BasicBlock, edge int, dept
 		return val
 	}
 	return unk
+}
+
+func isLenCall(v ssa.Value) bool {
+	c, ok := v.(*ssa.Call)
+	if !ok {
+		return false
+	}
+	b, ok := c.Call.Value.(*ssa.Builtin)
+	return ok && b.Name() == "len"
+}
+
+// appendsElements: append(s, e1, …) with at least one element (not a spread).
+func appendsElements(c *ssa.Call) bool {
+	if len(c.Call.Args) != 2 {
+		return false
+	}
+	sl, ok := c.Call.Args[1].(*ssa.Slice)
+	if !ok {
+		return false
+	}
+	al, ok := sl.X.(*ssa.Alloc)
+	if !ok {
+		return false
+	}
+	arr, ok := al.Type().Underlying().(*types.Pointer).Elem().Underlying().(*types.Array)
+	return ok && arr.Len() >= 1
+}
+
+// lenAbs: is the slice empty (zero) or not (nonzero)? Only answered for slices
+// for which nil-ness and emptiness coincide: the nil constant, an append of
+// elements, and phis of such values.
+func (fi *fnInfo) lenAbs(v ssa.Value, env *penv, at *ssa.BasicBlock, edge, depth int) absval {
+	if depth > 8 {
+		return unk
+	}
+	switch x := v.(type) {
+	case *ssa.Const:
+		if x.Value == nil {
+			return zero
+		}
+	case *ssa.Call:
+		if b, ok := x.Call.Value.(*ssa.Builtin); ok && b.Name() == "append" && appendsElements(x) {
+			return nonzero
+		}
+	case *ssa.Phi:
+		if fi.purelyGrown(x, map[*ssa.Phi]bool{}) && env != nil {
+			if a, ok := env.phi[x]; ok {
+				return a
+			}
+		}
+	}
+	return unk
+}
+
+// purelyGrown: every leaf of the phi is the nil constant or an append of elements.
+func (fi *fnInfo) purelyGrown(p *ssa.Phi, seen map[*ssa.Phi]bool) bool {
+	if seen[p] {
+		return true
+	}
+	seen[p] = true
+	for _, e := range p.Edges {
+		switch x := e.(type) {
+		case *ssa.Const:
+			if x.Value != nil {
+				return false
+			}
+		case *ssa.Call:
+			b, ok := x.Call.Value.(*ssa.Builtin)
+			if !ok || b.Name() != "append" || !appendsElements(x) {
+				return false
+			}
+		case *ssa.Phi:
+			if !fi.purelyGrown(x, seen) {
+				return false
+			}
+		default:
+			return false
+		}
+	}
+	return true
 }
 
 // hasLiteralText: the format contains a character outside of %-verbs.
